@@ -8,11 +8,12 @@ extracted `PIPELINE_MAX_SIZE_IN_DOCS`, or a number); a call is `<c>` or `<c>:<ph
 (the storage phases that hit a failing operation during that call):
   calls  : `n` Index::writer · `a<d>` add_document(d) · `c` commit · `r` rollback · `d` drop ·
            `m` merge(all).wait · `g` garbage_collect_files.wait · `l` reader reload ·
-           `x` the operator removes an orphaned writer lock file
+           `x` the operator removes an orphaned writer lock file · `w` wait_merging_threads
   phases : `lo` `lf` `ld` lock open/flush/delete · `cr` reads in IndexWriter::new · `wk` worker ·
            `pu` purge · `sm` save_metas · `gl` `gd` `gm` GC lock/delete/managed.json ·
            `mt` merge thread · `ep` `es` end_merge purge/save · `rl` reload ·
            `s2` `e2` the directory sync after the meta.json rename (commit / end_merge)
+`cap` — the extracted capacity of the document channel (`PIPELINE_MAX_SIZE_IN_DOCS`)
 response: `<res>,<res>,…|<content of meta.json as doc ids>|<stale lock 0/1>|<searcher content>`
 -/
 namespace TantivyModel.Driver.C11
@@ -42,6 +43,7 @@ def callOf (t : String) : Option Call :=
   | ['g'] => some .gc
   | ['l'] => some .reload
   | ['x'] => some .removeLock
+  | ['w'] => some .waitMerges
   | 'a' :: rest => (String.ofList rest).toNat?.map .add
   | _ => none
 
@@ -58,6 +60,7 @@ def showRes : Res → String
   | .ok => "ok" | .err => "err" | .panic => "panic" | .hang => "hang"
 
 def handle : List String → String
+  | ["cap"] => toString codeCap
   | ["run", cap, toks] =>
     match (if cap == "cap" then some codeCap else cap.toNat?), (if toks == "-" then some [] else (toks.splitOn ",").mapM parseTok) with
     | some cap, some cps =>
